@@ -16,6 +16,7 @@ import (
 	"os/exec"
 	"runtime"
 	"sort"
+	"regexp"
 	"strings"
 	"sync"
 	"sync/atomic"
@@ -32,6 +33,7 @@ import (
 	"verifharness/gen"
 	"verifharness/hx"
 	"verifharness/ref/rgmssl"
+	"verifharness/ref/rder"
 	"verifharness/ref/rsm2"
 	"verifharness/ref/rsm3"
 	"verifharness/ref/rsm4"
@@ -81,6 +83,10 @@ type material struct {
 	ber     []byte
 	berWant string
 	p7      []byte
+	// ONE parsed signed-data object and ONE parsed envelope (DES-CBC content, primitive or constructed encoding), shared
+	p7Signed  *gx.PKCS7
+	p7Env     *gx.PKCS7
+	p7EnvCert *gx.Certificate
 	// ONE client session cache shared by every goroutine; the values that may legitimately be stored under a key
 	cache     gmtls.ClientSessionCache
 	cacheCap  int
@@ -252,10 +258,46 @@ func prepare(t *rapid.T) *material {
 	if err != nil {
 		t.Fatalf("signed-data: %v", err)
 	}
+	if m.p7Signed, err = gx.ParsePKCS7(m.p7); err != nil {
+		t.Fatalf("ParsePKCS7(signed-data): %v", err)
+	}
+	// an envelope for this case's SM2 key; half of the cases carry the encrypted content as a primitive [0] IMPLICIT OCTET
+	// STRING (OpenSSL's form), whose bytes the parsed object references directly
+	tpl := &gx.Certificate{SerialNumber: big.NewInt(4242), Subject: pkix.Name{CommonName: "c20 recipient"}, NotBefore: tlsx.Now.Add(-time.Hour), NotAfter: tlsx.Now.Add(time.Hour), SignatureAlgorithm: gx.SM2WithSM3}
+	cder, err := gx.CreateCertificate(tpl, tpl, &m.priv.PublicKey, m.priv)
+	if err == nil {
+		m.p7EnvCert, err = gx.ParseCertificate(cder)
+	}
+	if err != nil {
+		t.Fatalf("recipient certificate: %v", err)
+	}
+	env, err := gx.PKCS7EncryptSM2(m.msgs[0], []*gx.Certificate{m.p7EnvCert}, sm2.C1C3C2)
+	if err != nil {
+		t.Fatalf("PKCS7EncryptSM2: %v", err)
+	}
+	if rapid.Bool().Draw(t, "primitiveContent") {
+		prim, ok := gen.DERReplaceWhere(env, func(tl rder.TLV, c []byte) bool {
+			if tl.Tag != 0xa0 || len(c) < 2 || c[0] != 0x04 {
+				return false
+			}
+			in, err := rder.ReadStrict(c, 0)
+			return err == nil && in.HdrLen+in.Len == len(c)
+		}, 0x80, func(old []byte) []byte {
+			in, _ := rder.ReadStrict(old, 0)
+			return old[in.HdrLen:]
+		})
+		if !ok {
+			t.Fatalf("harness: encrypted content not found in the envelope")
+		}
+		env = prim
+	}
+	if m.p7Env, err = gx.ParsePKCS7(env); err != nil {
+		t.Fatalf("ParsePKCS7(envelope): %v", err)
+	}
 	return m
 }
 
-var opKinds = []string{"cache", "cache", "sm4_block", "sm4_block", "sm4_block", "sm3", "sm3_stream", "sm4_mode", "sm2_sign", "sm2_verify", "sm2_decrypt", "sm2_encrypt", "sm2_keygen", "x509_parse", "x509_verify", "x509_verify", "pkcs7_ber", "pkcs7_verify"}
+var opKinds = []string{"cache", "cache", "sm4_block", "sm4_block", "sm4_block", "sm3", "sm3_stream", "sm4_mode", "sm2_sign", "sm2_verify", "sm2_decrypt", "sm2_encrypt", "sm2_keygen", "x509_parse", "x509_verify", "x509_verify", "pkcs7_ber", "pkcs7_verify", "pkcs7_shared", "pkcs7_shared"}
 
 // run performs one operation and returns "" or a description of the disagreement with the sequential value.
 func (m *material) run(o op) string {
@@ -376,6 +418,18 @@ func (m *material) run(o op) string {
 				return fmt.Sprintf("session cache returned under %q a value that was never stored under that key", key)
 			}
 		}
+	case "pkcs7_shared":
+		// the parsed objects are shared: verifying and opening them only reads them
+		if o.Sel%3 == 0 {
+			if err := m.p7Signed.Verify(); err != nil {
+				return "Verify on the shared parsed signed-data: " + err.Error()
+			}
+			return ""
+		}
+		out, err := m.p7Env.DecryptSM2(m.p7EnvCert, m.priv, sm2.C1C3C2)
+		if err != nil || !bytes.Equal(out, m.msgs[0]) {
+			return fmt.Sprintf("DecryptSM2 on the shared parsed envelope: err=%v, %d bytes (single-threaded: the %d-byte content)", err, len(out), len(m.msgs[0]))
+		}
 	case "pkcs7_verify":
 		p7, err := gx.ParsePKCS7(m.p7)
 		if err != nil {
@@ -488,7 +542,7 @@ func TestC20_Workloads(t *testing.T) {
 				c = "sm3"
 			case "x509_parse":
 				c = "x509_verify"
-			case "pkcs7_verify":
+			case "pkcs7_verify", "pkcs7_shared":
 				c = "pkcs7_ber"
 			case "sm2_encrypt", "sm2_keygen":
 				c = "sm2_sign"
@@ -647,6 +701,25 @@ func TestC20_FirstUse(t *testing.T) {
 
 // ---------- part C: one server Config and one client Config (+ session cache) serving simultaneous connections
 
+// keyLog is a plain, unsynchronised io.Writer handed to several Config values as KeyLogWriter: the library promises to
+// serialise the writes of all connections ("writerMutex protects all KeyLogWriters globally"), so calls never overlap.
+type keyLog struct {
+	in, overlap int32
+	buf         []byte
+}
+
+func (w *keyLog) Write(p []byte) (int, error) {
+	if atomic.AddInt32(&w.in, 1) != 1 {
+		atomic.StoreInt32(&w.overlap, 1)
+	}
+	runtime.Gosched()
+	w.buf = append(w.buf, p...)
+	atomic.AddInt32(&w.in, -1)
+	return len(p), nil
+}
+
+var keyLogLine = regexp.MustCompile(`^CLIENT_RANDOM [0-9a-f]{64} [0-9a-f]{96}$`)
+
 func TestC20_SharedConfig(t *testing.T) {
 	p := tlsx.GetPKI()
 	cn := 0
@@ -686,6 +759,12 @@ func TestC20_SharedConfig(t *testing.T) {
 		}
 		keys := [][32]byte{{1, byte(cn)}}
 		sc.SetSessionTicketKeys(keys)
+		var kl *keyLog
+		if rapid.Bool().Draw(t, "keylog") {
+			// one key log for the client Config and the server Config (two Config values, one writer)
+			kl = &keyLog{}
+			cc.KeyLogWriter, sc.KeyLogWriter = kl, kl
+		}
 		type outcome struct {
 			r        *tlsx.Result
 			cs, ss   []byte
@@ -742,6 +821,17 @@ func TestC20_SharedConfig(t *testing.T) {
 		}
 		start.Done()
 		done.Wait()
+		if kl != nil {
+			if atomic.LoadInt32(&kl.overlap) != 0 {
+				t.Fatalf("two connections wrote to the shared KeyLogWriter at the same time (mode=%s, %d connections)", mode, k)
+			}
+			lines := strings.Split(strings.TrimSuffix(string(kl.buf), "\n"), "\n")
+			for _, l := range lines {
+				if !keyLogLine.MatchString(l) {
+					t.Fatalf("key log damaged by concurrent connections: line %q (mode=%s, %d connections, %d lines)", l, mode, k, len(lines))
+				}
+			}
+		}
 		var masters [][]byte
 		resumed := 0
 		for pass := 0; pass < 2; pass++ {
